@@ -232,6 +232,46 @@ def c10():
     cases.append(case("edge-header-not-first", files, [
         (0, "d", "   fa\n", 0, 3, None, {"edge"}, "class header after a method"),
     ]))
+
+    # ---- names declared twice in one scope: the LATEST declaration is the one in the table (forward declaration +
+    # definition, an announcement in an ancestor defined in a descendant, two announcements, duplicate field / constant /
+    # parameter / local, also in another letter case).  Input a "the names of one table are unique" change of
+    # collect_unique_symbols_w_parents needs (seeded C11-10)
+    Base = "class aBase\n\nconst cBase = 1\nconst CBASE = 2\n\nproc Ship forward\n\nfunc Late return int4 forward\n"
+    Part = ("class aPart (aBase)\n\nSize : int4\nSize : cstring\n\nfunc Weight(Unit : int4) return int4 forward\n\nproc Ship forward\n\nproc SHIP forward\n\n"
+            "func weight(Unit : int4) return int4\n   var tmp : int4\n   var TMP : cstring\n   tmp = 1\nendfunc\n\nproc Ship\nendproc\n")
+    Desc = "class aDesc (aPart)\n\nfunc Late return int4\n   \nendfunc\n"
+    User = ("class aUser\n\nuses aPart\n\nproc Run(count : int4, Count : cstring)\n   var part : aPart\n   part.Weight(1)\n   part.Ship()\n   part.Size\n   count = 1\n"
+            "   var d : aDesc\n   d.Late()\nendproc\n")
+    files = [("aUser", User), ("aPart", Part), ("aBase", Base), ("aDesc", Desc)]
+    cases.append(case("shape-name-declared-twice", files, [
+        (0, "d", "part.Weight(1)", 0, 6, [sel(files, "aPart", "func weight", 0, 5)], {"dotted", "right", "redeclared"}, "method announced by a forward declaration: the definition"),
+        (0, "d", "part.Ship()", 0, 6, [sel(files, "aPart", "proc Ship\nend", 0, 5, 4), sel(files, "aBase", "proc Ship forward", 0, 5, 4)], {"dotted", "right", "redeclared", "overridden"}, "two announcements + definition, announced in the ancestor too: one link per class"),
+        (0, "d", "part.Size", 0, 6, [sel(files, "aPart", "Size : cstring", 0, 0, 4)], {"dotted", "right", "redeclared"}, "field declared twice"),
+        (0, "d", "   count = 1", 0, 4, [sel(files, "aUser", "Count : cstring", 0, 0, 5)], {"plain", "local", "redeclared"}, "parameter name declared twice"),
+        (0, "d", "d.Late()", 0, 3, [sel(files, "aDesc", "func Late", 0, 5), sel(files, "aBase", "func Late", 0, 5)], {"dotted", "right", "overridden"}, "announced in an ancestor, defined in a descendant"),
+        (1, "d", "func Weight(Unit", 0, 6, [sel(files, "aPart", "func weight", 0, 5)], {"own-name", "own-method", "redeclared"}, "own declared name of the announcement"),
+        (1, "d", "   tmp = 1", 0, 4, [sel(files, "aPart", "var TMP", 0, 4)], {"plain", "local", "redeclared"}, "local declared twice"),
+        (1, "d", "proc SHIP forward", 0, 6, [sel(files, "aPart", "proc Ship\nend", 0, 5, 4), sel(files, "aBase", "proc Ship forward", 0, 5, 4)], {"own-name", "own-method", "redeclared", "overridden"}, "own declared name of the second announcement"),
+    ]))
+    # ---- `const` / `type` / `var` statements inside a method body belong to that method
+    A = ("class aA(aP)\n\nconst cOwn = 1\n\nproc First(count : int4)\n   var part : aB\n   const cStep = 2\n   type tHere : aB\n   var later : tHere\n   count = cStep\n   later.fb\nendproc\n\n"
+         "proc Second(other : int4)\n   var mine : int4\n   const cOwn = 5\n   mine = cStep\n   other = cOwn\n   later = tHere\n   mine = cDeep\nendproc\n\nproc Third\n   writeln(cOwn)\nendproc\n")
+    P3 = "class aP\nconst cP = 2\nproc PRun\n   const cDeep = 1\n   var lDeep : int4\n   lDeep = cDeep\nendproc\n"
+    files = [("aA", A), ("aP", P3), ("aB", "class aB\nfb : int4\n")]
+    cases.append(case("shape-declarations-inside-method-bodies", files, [
+        (0, "d", "count = cStep", 0, 9, [sel(files, "aA", "const cStep", 0, 6)], {"plain", "local", "body-decl"}, "constant declared in the body, same method"),
+        (0, "d", "var later : tHere", 0, 13, [sel(files, "aA", "type tHere", 0, 5)], {"typeref", "body-decl"}, "type declared in the body, same method"),
+        (0, "d", "later.fb", 0, 1, [sel(files, "aA", "var later", 0, 4)], {"left", "local", "body-decl"}, "variable declared between the statements"),
+        (0, "d", "later.fb", 0, 6, [sel(files, "aB", "fb : int4", 0, 0, 2)], {"dotted", "right", "alias"}, "member through the body's type"),
+        (0, "d", "mine = cStep", 0, 8, [], {"plain", "other-method-decl", "unresolvable"}, "constant of ANOTHER method's body"),
+        (0, "d", "other = cOwn", 0, 9, [sel(files, "aA", "const cOwn = 5", 0, 6, 4)], {"plain", "local", "body-decl"}, "the method's own constant is nearer than the class'"),
+        (0, "d", "later = tHere", 0, 1, [], {"plain", "other-method-decl", "unresolvable"}, "variable of another method's body"),
+        (0, "d", "later = tHere", 0, 9, [], {"plain", "other-method-decl", "unresolvable"}, "type of another method's body"),
+        (0, "d", "mine = cDeep", 0, 8, [], {"plain", "other-method-decl", "unresolvable"}, "constant of a method body of the ANCESTOR"),
+        (0, "d", "writeln(cOwn)", 0, 9, [sel(files, "aA", "const cOwn = 1", 0, 6, 4)], {"plain", "member"}, "the class' constant where no method constant hides it"),
+        (1, "d", "lDeep = cDeep", 0, 9, [sel(files, "aP", "const cDeep", 0, 6)], {"plain", "local", "body-decl"}, "same method, ancestor file"),
+    ]))
     return cases
 
 
@@ -334,6 +374,44 @@ def c11():
     cases.append(case("edge-after-dangling", files, [
         (0, "c", "   if v", 0, 3, None, {"edge"}, "the statement that follows a dangling dot lies inside the dot expression's empty operand"),
         (0, "c", "v.\n", 0, 2, ["BProc", "fb"], {"dot", "dangling"}, "the dangling dot itself"),
+    ]))
+
+    # ---- names declared twice in one scope: the LATEST declaration is the one in the table (forward declaration +
+    # definition, an announcement in an ancestor defined in a descendant, two announcements, duplicate field / constant /
+    # parameter / local, also in another letter case).  Input a "the names of one table are unique" change of
+    # collect_unique_symbols_w_parents needs (seeded C11-10)
+    Base = "class aBase\n\nconst cBase = 1\nconst CBASE = 2\n\nproc Ship forward\n\nfunc Late return int4 forward\n"
+    Part = ("class aPart (aBase)\n\nSize : int4\nSize : cstring\n\nfunc Weight(Unit : int4) return int4 forward\n\nproc Ship forward\n\nproc SHIP forward\n\n"
+            "func weight(Unit : int4) return int4\n   var tmp : int4\n   var TMP : cstring\n   tmp = 1\nendfunc\n\nproc Ship\nendproc\n")
+    Desc = "class aDesc (aPart)\n\nfunc Late return int4\n   \nendfunc\n"
+    User = "class aUser\n\nuses aPart\n\nproc Run(count : int4, Count : int4)\n   var part : aPart\n   var d : aDesc\n   count = 1\n   part.We\n   part.\n   exit\n   d.\nendproc\n"
+    files = [("aUser", User), ("aPart", Part), ("aBase", Base), ("aDesc", Desc)]
+    members = ["Late", "Ship", "Size", "weight"]
+    cases.append(case("shape-name-declared-twice", files, [
+        (0, "c", "part.We", 0, 7, members, {"dot", "partial", "redeclared-member"}, "announced + defined methods, a field declared twice: each name once, spelt as the latest declaration"),
+        (0, "c", "part.\n", 0, 5, members, {"dot", "dangling", "redeclared-member"}, "the same at a dangling dot"),
+        (0, "c", "d.\n", 0, 2, members, {"dot", "dangling", "redeclared-member"}, "through a descendant that defines what the root announces"),
+        (0, "c", "   count = 1", 0, 3, ["Count", "d", "part"], {"stmt-start", "redeclared-name"}, "parameter name declared twice"),
+        (1, "c", "   tmp = 1", 0, 3, ["CBASE", "TMP", "Unit"], {"stmt-start", "redeclared-name"}, "local declared twice, inherited constant declared twice"),
+        (3, "c", "   \nendfunc", 0, 3, ["CBASE"], {"stmt-start", "redeclared-name"}, "inherited constant declared twice"),
+    ]))
+    # ---- `const` / `type` / `var` statements inside a method body belong to that method: offered there (constants and
+    # variables), nowhere else.  Input an "enter constants into the class-level table" change needs (seeded C11-11)
+    A = ("class aA(aP)\n\nconst cOwn = 1\n\nproc First(count : int4)\n   var part : aB\n   const cStep = 2\n   type tHere : aB\n   var later : tHere\n   count = cStep\n   later.\n   exit\nendproc\n\n"
+         "proc Second(other : int4)\n   var mine : int4\n   const cOwn = 5\n   mine = other\n   \nendproc\n\nproc Third\n   \nendproc\n")
+    P3 = "class aP\nconst cP = 2\nproc PRun\n   const cDeep = 1\n   var lDeep : int4\n   \nendproc\n"
+    D3 = "class aD(aA)\nproc DRun\n   \nendproc\n"
+    files = [("aA", A), ("aP", P3), ("aB", B), ("aD", D3)]
+    first = ["cOwn", "cP", "cStep", "count", "later", "part"]
+    cases.append(case("shape-declarations-inside-method-bodies", files, [
+        (0, "c", "   count = cStep", 0, 3, first, {"stmt-start", "body-decl"}, "the declaring method: its constants and variables (not its types)"),
+        (0, "c", "   const cStep", 0, 3, first, {"stmt-start", "body-decl", "decl-line"}, "on the declaration line itself"),
+        (0, "c", "later.\n", 0, 6, ["BProc", "fb"], {"dot", "dangling", "alias"}, "variable of a type the body declares"),
+        (0, "c", "   mine = other", 0, 3, ["cOwn", "cP", "mine", "other"], {"stmt-start", "body-decl", "other-method-body-decl"}, "another method: nothing of First; its own cOwn once"),
+        (0, "c", "   \nendproc\n\nproc Third", 0, 3, ["cOwn", "cP", "mine", "other"], {"stmt-start", "body-decl", "other-method-body-decl"}, "empty line there"),
+        (0, "c", "proc Third\n   \n", 0, 14, ["cOwn", "cP"], {"stmt-start", "other-method-body-decl"}, "a method without declarations: the class' constants only"),
+        (1, "c", "   \nendproc", 0, 3, ["cDeep", "cP", "lDeep"], {"stmt-start", "body-decl"}, "ancestor's method"),
+        (3, "c", "   \nendproc", 0, 3, ["cOwn", "cP"], {"stmt-start", "other-method-body-decl"}, "descendant: no method constant of an ancestor"),
     ]))
     return cases
 
